@@ -23,6 +23,35 @@ EXPLANATION = (
 RULE = "E4 guard dominance; arm-to-exit reachability; E4 accumulation must-pass-through; E7 adapter deny-list; E2 arm purity; E5 pass-through"
 
 
+def check_accumulators(ctx, P, keys):
+    """The draft's Aggregate / key accumulation: the plain group sum of every element, started at the identity."""
+    for ak in keys:
+        a = ctx.need_fn("E4.accumulate", ak)
+        if a is None:
+            continue
+        ev = evaluate(a)
+        rfold = strip_sites(ev.ret)
+        if rfold.op == "call" and B.cname(rfold) == "Iterator::fold" and len(rfold.a[1]) == 3:
+            src, init, clo = rfold.a[1]
+            c = B.peel(clo)
+            okf = B.peel(src).op == "param" and B.peel(init).op == "call" and B.cname(B.peel(init)) == "Group::identity" and c.op == "agg" and c.a[0][0] == "closure"
+            if okf:
+                g = P.fns.get(c.a[0][1])
+                r = strip_sites(evaluate(g).ret) if g is not None else None
+                # `|acc, x| acc + x`  or  `|mut acc, x| { acc += x; acc }`
+                okf = r is not None and ((r.op == "call" and B.cname(r) in ("Add::add",) and {B.peel(x).a[0] if B.peel(x).op == "param" else None for x in r.a[1]} == {2, 3}) or (r.op == "mutcall" and B.cname(r) == "AddAssign::add_assign" and r.a[1] == 0 and [B.peel(x).a[0] if B.peel(x).op == "param" else None for x in r.a[2]] == [2, 3]))
+            ctx.ob("E4.accumulate", ak, okf, "accumulator = fold(iterator, identity, |acc, x| acc + x)", where=where(a))
+            F.check_no_dropping_adapters(ctx, "E7.adapters", P, [ak])
+            continue
+        res = F.loops_push_every_iteration(a)
+        pname = a.locals[1].get("name")
+        cov = [R.covers_all(s, pname) for _, s in R.loop_sources(a)]
+        ret = strip_sites(ev.ret)
+        init_ok = ret.op == "loop" and ret.a[2].op == "call" and B.cname(ret.a[2]) == "Group::identity"
+        ctx.ob("E4.accumulate", ak, bool(res) and all(r[1] for r in res) and cov == ["all"] and init_ok, "accumulator starts at identity=%s, loop covers %s, every iteration accumulates=%s" % (init_ok, cov, [r[1] for r in res]), where=where(a))
+        F.check_no_dropping_adapters(ctx, "E7.adapters", P, [ak])
+
+
 def run(ctx):
     P = ctx.P
     fk = "<MultiSignature<C> as TryFrom<&[Signature<C>]>>::try_from"
@@ -133,31 +162,7 @@ def run(ctx):
         ok = bool(per_elem) or first_ok
         ctx.ob("E4.aug-refused", fk, ok, "message-augmentation inputs are refused: per-element MessageAugmentation arm reaches only Err exits=%s; no success exit under a MessageAugmentation first element=%s" % (per_elem, first_ok), where=where(f))
     # accumulators
-    for ak in ("BlsMultiKey::from_public_keys", "BlsMultiSignature::from_signatures", "BlsSignatureCore::aggregate_public_keys", "BlsSignatureCore::aggregate_signatures"):
-        a = ctx.need_fn("E4.accumulate", ak)
-        if a is None:
-            continue
-        ev = evaluate(a)
-        rfold = strip_sites(ev.ret)
-        if rfold.op == "call" and B.cname(rfold) == "Iterator::fold" and len(rfold.a[1]) == 3:
-            src, init, clo = rfold.a[1]
-            c = B.peel(clo)
-            okf = B.peel(src).op == "param" and B.peel(init).op == "call" and B.cname(B.peel(init)) == "Group::identity" and c.op == "agg" and c.a[0][0] == "closure"
-            if okf:
-                g = P.fns.get(c.a[0][1])
-                r = strip_sites(evaluate(g).ret) if g is not None else None
-                # `|acc, x| acc + x`  or  `|mut acc, x| { acc += x; acc }`
-                okf = r is not None and ((r.op == "call" and B.cname(r) in ("Add::add",) and {B.peel(x).a[0] if B.peel(x).op == "param" else None for x in r.a[1]} == {2, 3}) or (r.op == "mutcall" and B.cname(r) == "AddAssign::add_assign" and r.a[1] == 0 and [B.peel(x).a[0] if B.peel(x).op == "param" else None for x in r.a[2]] == [2, 3]))
-            ctx.ob("E4.accumulate", ak, okf, "accumulator = fold(iterator, identity, |acc, x| acc + x)", where=where(a))
-            F.check_no_dropping_adapters(ctx, "E7.adapters", P, [ak])
-            continue
-        res = F.loops_push_every_iteration(a)
-        pname = a.locals[1].get("name")
-        cov = [R.covers_all(s, pname) for _, s in R.loop_sources(a)]
-        ret = strip_sites(ev.ret)
-        init_ok = ret.op == "loop" and ret.a[2].op == "call" and B.cname(ret.a[2]) == "Group::identity"
-        ctx.ob("E4.accumulate", ak, bool(res) and all(r[1] for r in res) and cov == ["all"] and init_ok, "accumulator starts at identity=%s, loop covers %s, every iteration accumulates=%s" % (init_ok, cov, [r[1] for r in res]), where=where(a))
-        F.check_no_dropping_adapters(ctx, "E7.adapters", P, [ak])
+    check_accumulators(ctx, P, ("BlsMultiKey::from_public_keys", "BlsMultiSignature::from_signatures", "BlsSignatureCore::aggregate_public_keys", "BlsSignatureCore::aggregate_signatures"))
     # MultiPublicKey::from_public_keys: 1:1 map
     m = ctx.need_fn("E5.chain", "MultiPublicKey<C>::from_public_keys")
     if m is not None:
@@ -185,6 +190,13 @@ def run(ctx):
     K.check_core_forwarding(ctx, P, rule="E5.forward", methods=("verify", "multi_sig_verify"))
     # the accumulated signature is checked under the tag its parts were signed under (per scheme trait)
     K.check_core_table(ctx, P, methods=("sign", "verify", "multi_sig_verify"))
+    # "accumulation refuses ... fewer than two inputs": refuses, does not abort - abort census over the accumulation and
+    # verification entry points (both profiles)
+    from . import aborts as A_
+
+    roots_ = ["<MultiSignature<C> as TryFrom<&[Signature<C>]>>::try_from", "MultiSignature<C>::from_signatures", "MultiSignature<C>::verify", "MultiPublicKey<C>::from_public_keys"]
+    A_.check_aborts(ctx, "E8", P, roots_, scope="C07")
+    A_.check_aborts(ctx, "E8", ctx.prog("blst", "nodebug"), roots_, scope="C07", profile="nodebug")
     from .posctl import run_posctl
 
     run_posctl(ctx, "E7.adapters", "adapters")
